@@ -110,6 +110,9 @@ type Persist struct {
 	WALAcked   []consensus.WALMessage
 	WALAckedBy []int
 	boots      int
+	// SkipWALCatchupNext: the next incarnation enters consensus the way a node does after block sync or state sync
+	// (no WAL catch-up); consumed by Boot
+	SkipWALCatchupNext bool
 	// Heard: every vote of another validator handed to the node, over all incarnations, interleaved with SignLog by Seq
 	Heard []HeardVote
 	seq   int
@@ -580,6 +583,11 @@ func Boot(p *Persist, armAt int) (n *PNode, crashed *CrashSignal, err error) {
 		n.WAL = &walWrap{WAL: realWAL, c: n.C, headPath: p.walFile(), cs: n.CS, tokenRes: make(chan bool, 4)}
 		n.WAL.HeadSynced = n.WAL.stat()
 		n.CS.VerifSetWAL(n.WAL)
+		if p.SkipWALCatchupNext {
+			// the blocks below the current height came from block sync / state sync: SwitchToConsensus(state, true)
+			p.SkipWALCatchupNext = false
+			n.CS.VerifC15StartWithoutWALCatchup()
+		}
 		if err := n.CS.Start(); err != nil {
 			return fmt.Errorf("consensus start: %w", err)
 		}
